@@ -79,6 +79,9 @@ type replayFile struct {
 	Class    string          `json:"class"`
 	Detail   string          `json:"detail"`
 	Case     json.RawMessage `json:"case"`
+	// Guards: replay with the guards of open findings active (for regression
+	// cases that necessarily lie inside the guard of another, open finding)
+	Guards bool `json:"guards,omitempty"`
 }
 
 func replayOutPath(prop string) string {
@@ -151,7 +154,7 @@ func runReplayFile(path string) (*replayFile, *failure, error) {
 		return &rf, nil, fmt.Errorf("no replayer for kind %q", rf.Kind)
 	}
 	old := guardsOff
-	guardsOff = true
+	guardsOff = !rf.Guards
 	defer func() { guardsOff = old }()
 	return &rf, fn(rf.Case), nil
 }
